@@ -63,15 +63,21 @@ class Context:
         # Basic type constructors (minimal implementations)
         self._globals["Object"] = self._create_object_constructor()
         self._globals["Array"] = self._create_array_constructor()
-        self._globals["Error"] = self._create_error_constructor("Error")
-        self._globals["TypeError"] = self._create_error_constructor("TypeError")
-        self._globals["SyntaxError"] = self._create_error_constructor("SyntaxError")
-        self._globals["ReferenceError"] = self._create_error_constructor(
-            "ReferenceError"
-        )
-        self._globals["RangeError"] = self._create_error_constructor("RangeError")
-        self._globals["URIError"] = self._create_error_constructor("URIError")
-        self._globals["EvalError"] = self._create_error_constructor("EvalError")
+        error = self._create_error_constructor("Error")
+        self._globals["Error"] = error
+        # The native error prototypes inherit from Error.prototype
+        # (e instanceof Error holds for every kind of error)
+        for name in (
+            "TypeError",
+            "SyntaxError",
+            "ReferenceError",
+            "RangeError",
+            "URIError",
+            "EvalError",
+        ):
+            self._globals[name] = self._create_error_constructor(
+                name, error.get("prototype")
+            )
 
         # Math object
         self._globals["Math"] = self._create_math_object()
@@ -465,10 +471,12 @@ class Context:
 
         return arr_constructor
 
-    def _create_error_constructor(self, error_name: str) -> JSCallableObject:
+    def _create_error_constructor(
+        self, error_name: str, parent_prototype: Optional[JSObject] = None
+    ) -> JSCallableObject:
         """Create an Error constructor (Error, TypeError, SyntaxError, etc.)."""
         # Add prototype first so it can be captured in closure
-        error_prototype = JSObject()
+        error_prototype = JSObject(parent_prototype)
         error_prototype.set("name", error_name)
         error_prototype.set("message", "")
 
